@@ -30,16 +30,18 @@ BOUNDS = False      # C19 bounds mode: non-Send tokens (rt feature `nosend`), cl
 TICK = "__c.set(__c.get() + 1); "
 
 
-def tick(c):
-    """`|args| body` -> `|args| { tick; body }` in bounds mode"""
+def tick(c, lazy=False):
+    """`|args| body` -> `|args| { tick; body }` in bounds mode.  With `lazy_branches(true)` the branch expression sits inside a
+    `move ||` closure that returns it: a user closure in there has to take the borrowed Cell along (`move`), or it would borrow
+    from that closure's environment (a restriction of Rust closures, with or without the macro)"""
     if not BOUNDS:
         return c
     k = c.index("|", c.index("|") + 1) if not c.startswith("||") else 1
-    return c[:k + 1] + " { " + TICK + c[k + 1:].strip() + " }"
+    return ("move " if lazy else "") + c[:k + 1] + " { " + TICK + c[k + 1:].strip() + " }"
 
 
 def closure(P, it, b):
-    return tick(closure0(P, it, b))
+    return tick(closure0(P, it, b), P.get("opts", {}).get("lazy") == "true")
 
 
 def closure0(P, it, b):
